@@ -9,9 +9,9 @@ from vlib.verdict import Case
 
 PROPERTY = 'C08'
 MANIFEST = {
- 'level_text': 'TO BE FILLED',
- 'level_note': 'TO BE FILLED',
- 'technique': 'Lean 4 proof (invariants by induction over arbitrary server message sequences; deadlock-freedom against a formal conformant-server relation) + table extraction + differential correspondence',
+ 'level_text': 'Lean 4 theorems, kernel-checked, about an executable model of irclib.Irc\'s CAP/SASL/registration machine (every handler with its exceptions and partial effects; FSM states, guards and expect_state lists, REQUEST_CAPABILITIES, _nickSetters, line/chunk sizes regenerated from /repo on every run). Proved for every state, configuration and server message, resp. for every history of messages and resets: req_subset and echo_needs_label (each word of a CAP REQ line is advertised and wanted; echo-message only next to labeled-response); sasl_payload_invited / sasl_after_ack / sasl_entered_by_ack (credentials only as the answer to a server AUTHENTICATE inside INIT_SASL/CONNECTED_SASL, which is entered only while handling CAP ACK/NAK with sasl acknowledged); cap_end_once / cap_end_counted / cap_end_from_negotiation (at most one CAP END per connection epoch, none while an authentication is in progress); progress (deadlock-freedom of the bot against a formally defined conformant server, by a joint invariant over all joint histories: connected, or deliberately aborted, or the server still owes an answer); reset_fresh and epoch_clean (after Irc.reset every CAP/SASL/FSM/nick field and both queues equal those of a new Irc; with the real SocketDriver a new socket is only opened right after such a reset, the rest of the old recv chunk is dropped). The statement "no CAP REQ outstanding at CAP END" is false for servers sending CAP NEW/DEL mid-negotiation: known finding with a Lean counter-example. The model is tied to the code by a differential correspondence run after every message (stub driver: adversarial, state-aware and conformant server scripts; real SocketDriver over a fake socket) which also evaluates the property statement on the implementation\'s own takeMsg stream.',
+ 'level_note': 'Trusted: Lean kernel, axioms propext/Classical.choice/Quot.sound only; harness/extractors/conn.py; the correspondence harness (generators bound what it sees; IrcMsg parsing supplies command/args/nick, property C05). Modelled and proved about: feedMsg dispatch, _nickSetters, reset/_setNonResettingVariables/resetSasl/_queueConnectMessages, capUpkeep, endCapabilityNegociation, tryNextSaslMechanism, _maybeStartSasl, doAuthenticate (plain, external, ecdsa with the signature as a parameter), AuthenticateDecoder/authenticate_generator incl. which inputs base64 rejects, do903-908, doCapLs/Ack/Nak/New/Del, _addCapabilities, _onCapSts, _requestCaps (textwrap as greedy word fill), _getNextNick/do43x, do375/376/377/422, doPing, doError, doNick; SocketDriver.reconnect/_read loop/_sendIfMsgs as far as resets and sockets are concerned. progress: stub-driver semantics (an abort ends the epoch), each CAP REQ answered by one ACK or NAK of the same list (split answers only exercised by the generators), at most 4300-digit integers, ASCII commands. Not modelled: scram (library absent), user modes, zombie objects, requireStarttls, TLS itself, the random digits of the fallback nick (compared as a wildcard), Owner.do376 beyond "queues JOINs". Ghost fields endCount/saslAcked/epoch are defined by the model and not observable in the implementation.',
+ 'technique': 'Lean 4 proof (refinement of every model function to an abstract move system + invariants by induction over arbitrary server message sequences; deadlock-freedom against a formal conformant-server relation) + table extraction + differential correspondence (stub driver and real SocketDriver over a fake socket)',
  'design_ref': 'DESIGN.md §6 C08',
 }
 THEOREMS = ['C08.req_subset', 'C08.wanted_bounded', 'C08.echo_needs_label', 'C08.sasl_payload_invited',
@@ -458,9 +458,14 @@ class RealRun(object):
         before = {'policies': dict(net.stsPolicies), 'lastdisc': dict(net.lastDisconnectTimes),
                   'current': tuple(drv.currentServer), 'connected': drv.connected}
         inbuf_before = bytes(drv.inbuffer)
-        drv.run()
+        crash = None
+        try:
+            drv.run()
+        except Exception as e:          # drivers.run() would log this and remove the driver for good
+            crash = '%s: %s' % (type(e).__name__, e)
         self.w.pending = None
         o = self._observe()
+        o.x['crash'] = crash
         o.x['before'] = before; o.x['delivered'] = self.w.delivered; o.x['lines'] = list(lines); o.x['now'] = now
         o.x['inbuffer_before'] = inbuf_before
         self.obs.append(o)
@@ -569,6 +574,8 @@ def real_oracle(run):
     sock_lines = {}             # socket id -> lines sent on it so far
     for op, o in zip(run.ops, run.obs):
         x = o.x
+        if x.get('crash'):
+            bad.append(('driver_crash', 'SocketDriver.run() raised %s (drivers.run would remove the driver for good); stored policies: %r' % (x['crash'], x['policies'])))
         # --- sasl.required on the wire ("succeeded" = 903 received inside a SASL exchange, this epoch)
         for t in x['trace']:
             if t[0] == 'reset':
@@ -1255,7 +1262,7 @@ def explore(ctx, n_adv, n_conf, n_mixed, n_real=0, stream='c08'):
         cases.append(make_case(run, 'mixed'))
     for _ in range(n_real):
         run = script_real(r, gen_real_cfg(r), r.randint(1, 8))
-        cases.append(make_real_case(run, 'real-driver', preds=('epoch_clean',)))
+        cases.append(make_real_case(run, 'real-driver', preds=('epoch_clean', 'driver_crash')))
     return cases
 
 RULE = ('seeded server scripts against a real irclib.Irc (Owner plugin loaded, world.testing False) with a recording stub driver: '
